@@ -54,7 +54,7 @@ PROP = {
             "Frp.C18.numbersPiece_span", "Frp.C18.numbersPiece_single", "Frp.C18.model_rtRangesHoldsOn",
             "Frp.C18.flags_documented", "Frp.C18.flag_names_unique", "Frp.C18.flag_lookup_documented",
             "Frp.C18.sent_fields_bound", "Frp.C18.flag_sets_bound_field", "Frp.C18.flag_default_mismatches",
-            "Frp.C18.dashboard_tls_flag_witness", "Frp.C18.flHoldsOn_sound", "Frp.C18.typed_unmarshal_shape",
+            "Frp.C18.dashboard_tls_flag_witness", "Frp.C18.dashboard_tls_flag_fixed", "Frp.C18.flHoldsOn_sound", "Frp.C18.typed_unmarshal_shape",
             "Frp.C18.visitor_types_exact", "Frp.C18.visitor_steps_expected", "Frp.C18.visitor_steps_indep",
             "Frp.C18.visitor_complete_closed", "Frp.C18.visitor_name", "Frp.C18.visitor_bind_addr",
             "Frp.C18.visitor_server_name", "Frp.C18.xtcp_visitor_defaults", "Frp.C18.visitor_other_fields",
